@@ -19,6 +19,8 @@ def run(ctx):
         "program address controlled by the same key holder)",
         "the transaction hash is taken from types.TransactionFromRawBytes of the unsigned transaction (C02 covers the identity)",
     ]
+    ctx.assumptions += ["byte-level address model: key serialization and the quadruple compared by SortPublicKeys are inputs taken from the real key objects; "
+                        "RIPEMD160.SHA256 is a parameter (addresses are checked against an independent hash computation in the harness)"]
     ctx.cov["trusted_base"] += ["harness hnode/sigs + drv_node (correspondence check)", "Lean compiler for the driver",
                                 "ontology-crypto (signature schemes) as oracle for the verdict matrix"]
     ctx.lean_props()
